@@ -250,6 +250,14 @@ func ruleDroppedErrors(p *Prog, r *Result) {
 					}
 				}
 				if used {
+					// looked at — but when? an error produced inside a loop must be looked at inside that loop: if the only
+					// test sits after the loop, every iteration but the last has its error overwritten by the next one
+					if ev := errorValueOf(v, sig.Results().Len()); ev != nil && p.InRepo(fn) {
+						if why := overwrittenInLoop(fn, in.Block(), ev); why != "" {
+							bad++
+							r.Fail("C08.dropped", fmt.Sprintf("%s / error of %s overwritten by the next iteration", p.FuncName(fn), name), p.InstrPos(in), why)
+						}
+					}
 					continue
 				}
 				if why, ok := droppedErrorOK[name]; ok {
@@ -768,4 +776,74 @@ func reachesUse(v ssa.Value, seen map[ssa.Value]bool) bool {
 		}
 	}
 	return false
+}
+
+// errorValueOf: the error result of a call value (itself, or its last Extract).
+func errorValueOf(v ssa.Value, nres int) ssa.Value {
+	if v == nil {
+		return nil
+	}
+	if nres == 1 {
+		return v
+	}
+	if v.Referrers() == nil {
+		return nil
+	}
+	for _, ref := range *v.Referrers() {
+		if ex, ok := ref.(*ssa.Extract); ok && ex.Index == nres-1 {
+			return ex
+		}
+	}
+	return nil
+}
+
+// overwrittenInLoop: the error ev is produced in a block of a loop, is carried to the loop header (a phi there merges
+// it with the value of other iterations) and nothing inside the loop body tests, returns or hands on that value:
+// the test after the loop only ever sees the last iteration's error.
+func overwrittenInLoop(fn *ssa.Function, at *ssa.BasicBlock, ev ssa.Value) string {
+	var body map[*ssa.BasicBlock]bool
+	var hdr *ssa.BasicBlock
+	for _, h := range loopHeaders(fn) {
+		if b := loopBody(h); b[at] && (body == nil || len(b) < len(body)) {
+			body, hdr = b, h
+		}
+	}
+	if body == nil || ev.Referrers() == nil {
+		return ""
+	}
+	// every direct use of ev
+	carried := false
+	seen := map[ssa.Value]bool{}
+	var usedInside func(v ssa.Value) bool
+	usedInside = func(v ssa.Value) bool {
+		if seen[v] || v.Referrers() == nil {
+			return false
+		}
+		seen[v] = true
+		for _, ref := range *v.Referrers() {
+			switch x := ref.(type) {
+			case *ssa.DebugRef:
+			case *ssa.Phi:
+				if x.Block() == hdr {
+					carried = true
+					continue // what happens to the merged value is the question, not an answer
+				}
+				if body[x.Block()] && usedInside(x) {
+					return true
+				}
+			default:
+				if body[ref.Block()] {
+					return true // compared, returned, stored, passed on ... inside the loop
+				}
+			}
+		}
+		return false
+	}
+	if usedInside(ev) {
+		return ""
+	}
+	if !carried {
+		return ""
+	}
+	return "the error is assigned in the loop and first looked at after it: when a later iteration succeeds, the failure of an earlier one is overwritten and the result is computed from what the failed step left behind"
 }
